@@ -737,6 +737,8 @@ fn resolve_names_item_decl(ctx: &mut StaticsContext, symbol_table: &SymbolTable,
                     &f.args,
                     "a method that implements an interface",
                 );
+                // each method has its own scope inside the scope of the block
+                let symbol_table = symbol_table.new_scope();
                 resolve_names_func_helper(ctx, &symbol_table, &f.args, &f.body, &f.ret_type);
             }
 
@@ -927,6 +929,8 @@ fn resolve_names_function_bodies(
                         .insert(f.name.id, fully_qualified_name);
                 }
 
+                // each method has its own scope inside the scope of the block
+                let symbol_table = symbol_table.new_scope();
                 resolve_names_func_helper(ctx, &symbol_table, &f.args, &f.body, &f.ret_type);
             }
         }
